@@ -29,54 +29,54 @@ const wz = "github.com/zerx-lab/wordZero/pkg/document."
 func init() {
 	// ---- natives: exact, run on concrete arguments ----
 	for k, v := range map[string]interface{}{
-		"strings.Contains":    strings.Contains,
-		"strings.Count":       strings.Count,
-		"strings.Fields":      strings.Fields,
-		"strings.HasPrefix":   strings.HasPrefix,
-		"strings.HasSuffix":   strings.HasSuffix,
-		"strings.Index":       strings.Index,
-		"strings.LastIndex":   strings.LastIndex,
-		"strings.Repeat":      strings.Repeat,
-		"strings.ReplaceAll":  strings.ReplaceAll,
-		"strings.Replace":     strings.Replace,
-		"strings.Split":       strings.Split,
-		"strings.Join":        strings.Join,
-		"strings.ToLower":     strings.ToLower,
-		"strings.ToUpper":     strings.ToUpper,
-		"strings.TrimPrefix":  strings.TrimPrefix,
-		"strings.TrimSuffix":  strings.TrimSuffix,
-		"strings.TrimSpace":   strings.TrimSpace,
-		"strings.Trim":        strings.Trim,
-		"strings.TrimLeft":    strings.TrimLeft,
-		"strings.TrimRight":   strings.TrimRight,
-		"strings.EqualFold":   strings.EqualFold,
-		"strings.Title":       strings.Title,
-		"strconv.Atoi":        strconv.Atoi,
-		"strconv.Itoa":        strconv.Itoa,
-		"strconv.FormatBool":  strconv.FormatBool,
-		"strconv.FormatFloat": strconv.FormatFloat,
-		"strconv.FormatInt":   strconv.FormatInt,
-		"strconv.ParseFloat":  strconv.ParseFloat,
-		"strconv.ParseInt":    strconv.ParseInt,
-		"strconv.ParseBool":   strconv.ParseBool,
-		"strconv.Quote":       strconv.Quote,
-		"path/filepath.Base":  filepath.Base,
-		"path/filepath.Dir":   filepath.Dir,
-		"path/filepath.Ext":   filepath.Ext,
-		"path/filepath.IsAbs": filepath.IsAbs,
-		"path/filepath.Join":  filepath.Join,
-		"math.Abs":            math.Abs,
-		"math.Round":          math.Round,
-		"math.Floor":          math.Floor,
-		"math.Ceil":           math.Ceil,
-		"math.Max":            math.Max,
-		"math.Min":            math.Min,
-		"fmt.Sprintf":         fmt.Sprintf,
-		"fmt.Sprint":          fmt.Sprint,
-		"regexp.MustCompile":  regexp.MustCompile,
-		"regexp.QuoteMeta":    regexp.QuoteMeta,
-		"(*regexp.Regexp).FindAllString":              (*regexp.Regexp).FindAllString,
-		"(*regexp.Regexp).FindAllStringSubmatch":      (*regexp.Regexp).FindAllStringSubmatch,
+		"strings.Contains":                       strings.Contains,
+		"strings.Count":                          strings.Count,
+		"strings.Fields":                         strings.Fields,
+		"strings.HasPrefix":                      strings.HasPrefix,
+		"strings.HasSuffix":                      strings.HasSuffix,
+		"strings.Index":                          strings.Index,
+		"strings.LastIndex":                      strings.LastIndex,
+		"strings.Repeat":                         strings.Repeat,
+		"strings.ReplaceAll":                     strings.ReplaceAll,
+		"strings.Replace":                        strings.Replace,
+		"strings.Split":                          strings.Split,
+		"strings.Join":                           strings.Join,
+		"strings.ToLower":                        strings.ToLower,
+		"strings.ToUpper":                        strings.ToUpper,
+		"strings.TrimPrefix":                     strings.TrimPrefix,
+		"strings.TrimSuffix":                     strings.TrimSuffix,
+		"strings.TrimSpace":                      strings.TrimSpace,
+		"strings.Trim":                           strings.Trim,
+		"strings.TrimLeft":                       strings.TrimLeft,
+		"strings.TrimRight":                      strings.TrimRight,
+		"strings.EqualFold":                      strings.EqualFold,
+		"strings.Title":                          strings.Title,
+		"strconv.Atoi":                           strconv.Atoi,
+		"strconv.Itoa":                           strconv.Itoa,
+		"strconv.FormatBool":                     strconv.FormatBool,
+		"strconv.FormatFloat":                    strconv.FormatFloat,
+		"strconv.FormatInt":                      strconv.FormatInt,
+		"strconv.ParseFloat":                     strconv.ParseFloat,
+		"strconv.ParseInt":                       strconv.ParseInt,
+		"strconv.ParseBool":                      strconv.ParseBool,
+		"strconv.Quote":                          strconv.Quote,
+		"path/filepath.Base":                     filepath.Base,
+		"path/filepath.Dir":                      filepath.Dir,
+		"path/filepath.Ext":                      filepath.Ext,
+		"path/filepath.IsAbs":                    filepath.IsAbs,
+		"path/filepath.Join":                     filepath.Join,
+		"math.Abs":                               math.Abs,
+		"math.Round":                             math.Round,
+		"math.Floor":                             math.Floor,
+		"math.Ceil":                              math.Ceil,
+		"math.Max":                               math.Max,
+		"math.Min":                               math.Min,
+		"fmt.Sprintf":                            fmt.Sprintf,
+		"fmt.Sprint":                             fmt.Sprint,
+		"regexp.MustCompile":                     regexp.MustCompile,
+		"regexp.QuoteMeta":                       regexp.QuoteMeta,
+		"(*regexp.Regexp).FindAllString":         (*regexp.Regexp).FindAllString,
+		"(*regexp.Regexp).FindAllStringSubmatch": (*regexp.Regexp).FindAllStringSubmatch,
 		"(*regexp.Regexp).FindAllStringSubmatchIndex": (*regexp.Regexp).FindAllStringSubmatchIndex,
 		"(*regexp.Regexp).FindAllSubmatch":            (*regexp.Regexp).FindAllSubmatch,
 		"(*regexp.Regexp).FindString":                 (*regexp.Regexp).FindString,
